@@ -58,8 +58,46 @@ PASSES = {
 # properties whose histories can be re-executed call by call from a replay file
 SCENARIO_PROPS = TRACE_PROPS - {"C15", "C16", "C11", "C12", "C19"}
 
-# toy-scale model-checking configurations per property: (module, cfg, quick?, extra args)
-MC = {}
+# toy-scale model-checking configurations per property: (module, cfg, tiers, extra args)
+Q_, T_, QT = ("quick",), ("thorough",), ("quick", "thorough")
+MC = {
+    "C01": [("MC_Ladder.tla", "MC_Ladder.cfg", QT, ()), ("MC_Ladder.tla", "MC_Ladder_full.cfg", T_, ()), ("MC_Ladder.tla", "MC_Ladder_79.cfg", T_, ())],
+    "C02": [("MC_GroupLaw.tla", "MC_GroupLaw.cfg", Q_, ()), ("MC_GroupLaw.tla", "MC_GroupLaw_full.cfg", T_, ()), ("MC_GroupLaw.tla", "MC_GroupLaw_67.cfg", T_, ())],
+    "C03": [("MC_Decode.tla", "MC_Decode.cfg", Q_, ()), ("MC_Decode.tla", "MC_Decode_full.cfg", T_, ())],
+    "C04": [("MC_GroupLaw.tla", "MC_GroupLaw.cfg", Q_, ()), ("MC_GroupLaw.tla", "MC_GroupLaw_full.cfg", T_, ()), ("MC_Decode.tla", "MC_Decode.cfg", QT, ())],
+    "C05": [("MC_GroupLaw.tla", "MC_GroupLaw.cfg", Q_, ()), ("MC_GroupLaw.tla", "MC_GroupLaw_full.cfg", T_, ()), ("MC_GroupLaw.tla", "MC_GroupLaw_67.cfg", T_, ())],
+    "C06": [("MC_Scalars.tla", "MC_Scalars.cfg", QT, ())],
+    "C07": [("MC_Scalars.tla", "MC_Scalars.cfg", QT, ())],
+    "C08": [("MC_Sswu.tla", "MC_Sswu.cfg", QT, ())],
+    "C10": [("MC_History.tla", "MC_History_6.cfg", Q_, ()), ("MC_History.tla", "MC_History_7.cfg", T_, ()), ("MC_History.tla", "MC_History_wide.cfg", T_, ())],
+    "C11": [("MC_Sswu.tla", "MC_Sswu.cfg", QT, ()), ("MC_Sswu.tla", "MC_Sswu_79.cfg", QT, ())],
+    "C13": [("MC_Scalars.tla", "MC_Scalars.cfg", QT, ())],
+    "C14": [("MC_Scalars.tla", "MC_Scalars.cfg", QT, ()), ("MC_Ladder.tla", "MC_Ladder.cfg", QT, ())],
+    "C15": [("Conc.tla", "MC_Conc_a.cfg", QT, ()), ("Conc.tla", "MC_Conc_b.cfg", QT, ()), ("Conc.tla", "MC_Conc_c.cfg", QT, ()), ("Conc.tla", "MC_Conc_d.cfg", QT, ())],
+    "C16": [("Conc.tla", "MC_Conc_b.cfg", QT, ()), ("Conc.tla", "MC_Conc_c.cfg", QT, ()), ("Conc.tla", "MC_Conc_3g.cfg", QT, ())],
+    "C18": [("MC_Random.tla", "MC_Random.cfg", Q_, ()), ("MC_Random.tla", "MC_Random_deep.cfg", T_, ())],
+    "C19": [("MC_Ladder.tla", "MC_Ladder.cfg", QT, ())],
+}
+# named deviations of the implementation-shaped modules: each MUST make TLC report a violation (the toy
+# checks are not vacuous).  (module, base cfg, text to replace, replacement)
+DEVIATIONS = {
+    "C01": [("MC_Ladder.tla", "MC_Ladder.cfg", 'Dev = "none"', 'Dev = "ladder-skips-top-bit"')],
+    "C02": [("MC_GroupLaw.tla", "MC_GroupLaw.cfg", 'Dev = "none"', 'Dev = "add-skips-step-20"')],
+    "C03": [("MC_Decode.tla", "MC_Decode.cfg", 'Dev = "none"', 'Dev = "decode-no-range-check"'),
+            ("MC_Decode.tla", "MC_Decode.cfg", 'Dev = "none"', 'Dev = "decode-wrong-parity"'),
+            ("MC_Decode.tla", "MC_Decode.cfg", 'Dev = "none"', 'Dev = "decode-hybrid-ok"')],
+    "C05": [("MC_GroupLaw.tla", "MC_GroupLaw.cfg", 'Dev = "none"', 'Dev = "equal-ignores-y"'),
+            ("MC_GroupLaw.tla", "MC_GroupLaw.cfg", 'Dev = "none"', 'Dev = "equal-ignores-x"')],
+    "C10": [("MC_History.tla", "MC_History.cfg", 'Dev = "none"', 'Dev = "equal-ignores-y"')],
+    "C13": [("MC_Scalars.tla", "MC_Scalars.cfg", 'Dev = "none"', 'Dev = "compare-montgomery"'),
+            ("MC_Scalars.tla", "MC_Scalars.cfg", 'Dev = "none"', 'Dev = "cmov-raw-cond"')],
+    "C14": [("MC_Scalars.tla", "MC_Scalars.cfg", 'Dev = "none"', 'Dev = "bits-drop-top"')],
+    "C15": [("Conc.tla", "MC_Conc_b.cfg", "InPlace = FALSE", "InPlace = TRUE")],
+    "C16": [("Conc.tla", "MC_Conc_c.cfg", "InPlace = FALSE", "InPlace = TRUE")],
+    "C18": [("MC_Random.tla", "MC_Random.cfg", 'Dev = "none"', 'Dev = "zero-check-before-reduce"'),
+            ("MC_Random.tla", "MC_Random.cfg", 'Dev = "none"', 'Dev = "single-read"')],
+    "C19": [("MC_Ladder.tla", "MC_Ladder.cfg", 'Dev = "none"', 'Dev = "ladder-adds-only-when-bit-set"')],
+}
 
 
 def log(*a):
@@ -314,6 +352,20 @@ def run_mc_stage(prop, tier, specdir, work):
                 os.makedirs(os.path.dirname(keep), exist_ok=True)
                 open(keep, "w").write(r["out"])
                 raise Inconclusive("toy-scale model checking of %s failed or timed out (a fault of the specification or of its bounds, not of the code): %s" % (cfg, keep))
+    if tier == "thorough":
+        for (module, cfg, old, new) in DEVIATIONS.get(prop, []):
+            txt = open(os.path.join(specdir, cfg)).read()
+            assert old in txt
+            dcfg = "DEV_" + cfg
+            open(os.path.join(specdir, dcfg), "w").write(txt.replace(old, new))
+            r = run_mc(specdir, work, module, dcfg, timeout=400)
+            caught = "is violated" in r["out"]
+            log("  MC deviation %-34s %s" % (new, "caught by TLC" if caught else "NOT caught"))
+            r["cfg"] = cfg + " with " + new
+            r["deviation_caught"] = caught
+            mc_results.append(dict(r, ok=caught))
+            if not caught:
+                raise Inconclusive("the deliberate deviation %s of %s was not caught: the toy check is vacuous" % (new, module))
     return mc_results
 
 
@@ -469,8 +521,8 @@ def check_trace_property(prop, tier, seed, work, replay=None, scale=1.0):
     for sm in summaries:
         for k, v in sm.get("classes", {}).items():
             classes[k] = classes.get(k, 0) + v
-    mc_states = sum(r["distinct"] for r in mc_results)
-    mc_trans = sum(r["generated"] for r in mc_results)
+    mc_states = sum(r["distinct"] for r in mc_results if "deviation_caught" not in r)
+    mc_trans = sum(r["generated"] for r in mc_results if "deviation_caught" not in r)
     coverage = {
         "states": mc_states + total_states,
         "transitions": mc_trans + total_lines,
